@@ -57,7 +57,7 @@ const TABLE: &[Entry] = &[
     Entry { id: "C02", run: c02::run, quick: (4, 35.0), thorough: (14, 420.0) },
     Entry { id: "C03", run: c03::run, quick: (4, 35.0), thorough: (14, 420.0) },
     Entry { id: "C04", run: c04::run, quick: (6, 60.0), thorough: (14, 600.0) },
-    Entry { id: "C05", run: c05::run, quick: (6, 60.0), thorough: (14, 600.0) },
+    Entry { id: "C05", run: c05::run, quick: (6, 35.0), thorough: (14, 600.0) },
     Entry { id: "C06", run: c06::run, quick: (4, 45.0), thorough: (12, 480.0) },
     Entry { id: "C07", run: c07::run, quick: (4, 45.0), thorough: (12, 480.0) },
     Entry { id: "C08", run: c08::run, quick: (4, 45.0), thorough: (14, 480.0) },
